@@ -173,3 +173,91 @@ fn c08_canary_itf8_max_4_bytes() {
     write_itf8(&mut sink, n).unwrap();
     assert!(8 - sink.len() <= 4);
 }
+
+// ------------------------------------------------------------------------------------------------
+// C15: container landmarks (file-supplied) used as slice bounds
+
+// @verif prop=C15 id=O15.cram.landmarks tier=quick unwind=4 bound="Container with an 8-byte body and ARBITRARY header landmarks (0..=2 entries, any usize): compression_header() and slices() return Ok/Err, never panic on out-of-range landmarks" fns="io::reader::container::Container::compression_header,Container::slices"
+#[kani::proof]
+#[kani::unwind(4)]
+fn c15_container_landmarks_out_of_range() {
+    use crate::io::reader::container::Container;
+    let (a, b): (usize, usize) = kani::any();
+    let n: u8 = kani::any();
+    let mut c = Container::default();
+    c.src = vec![0u8; 8];
+    c.header.landmarks = match n {
+        0 => vec![],
+        1 => vec![a],
+        _ => vec![a, b],
+    };
+    let r = c.compression_header();
+    std::mem::forget(r);
+    let mut it = c.slices();
+    let s0 = it.next();
+    std::mem::forget(s0);
+    let s1 = it.next();
+    std::mem::forget(s1);
+    kani::cover!(n == 2 && a > 8);
+    std::mem::forget(it);
+    std::mem::forget(c);
+}
+
+// ------------------------------------------------------------------------------------------------
+// C19: reference sequence context fold (public API of container::ReferenceSequenceContext)
+
+// @verif prop=C19 id=O19.2 tier=quick unwind=4 bound="ARBITRARY context Some(id,s,e)/None/Many + one record (any optional id/start/end): one update step vs the spec fold (same reference -> min start/max end; different or unmapped -> Many; None stays None only for unplaced)" fns="ReferenceSequenceContext::update,Context::alignment_span"
+#[kani::proof]
+#[kani::unwind(4)]
+fn c19_reference_context_update_step() {
+    use crate::container::ReferenceSequenceContext as Ctx;
+    use noodles_core::Position;
+    let (id0, s0, e0, id1, s1, e1): (usize, usize, usize, usize, usize, usize) = kani::any();
+    kani::assume(1 <= s0 && s0 <= e0 && 1 <= s1 && s1 <= e1);
+    let which: u8 = kani::any();
+    let mut ctx = match which {
+        0 => Ctx::some(id0, Position::new(s0).unwrap(), Position::new(e0).unwrap()),
+        1 => Ctx::None,
+        _ => Ctx::Many,
+    };
+    let mapped: bool = kani::any();
+    if mapped {
+        ctx.update(Some(id1), Position::new(s1), Position::new(e1));
+    } else {
+        ctx.update(None, None, None);
+    }
+    match (which, mapped) {
+        (0, true) if id0 == id1 => match ctx {
+            Ctx::Some(c) => {
+                assert!(c.reference_sequence_id() == id0);
+                assert!(usize::from(c.alignment_start()) == s0.min(s1) && usize::from(c.alignment_end()) == e0.max(e1));
+                assert_eq!(c.alignment_span(), e0.max(e1) - s0.min(s1) + 1);
+            }
+            _ => assert!(false),
+        },
+        (0, _) => assert!(ctx.is_many()), // other reference, or an unplaced record joins a mapped slice
+        (1, false) => assert!(ctx == Ctx::None),
+        (1, true) => assert!(ctx.is_many()),
+        _ => assert!(ctx.is_many()),
+    }
+}
+
+// @verif prop=C19,C15 id=O19.2b tier=quick unwind=4 bound="ALL (i32,i32,i32) header triples: -1 -> None, -2 -> Many, otherwise Some(id,start,start+span-1) iff id>=0,start>=1,span>=1; never a panic" fns="ReferenceSequenceContext::try_from((i32,i32,i32))"
+#[kani::proof]
+#[kani::unwind(4)]
+fn c19_reference_context_from_raw_triple() {
+    use crate::container::ReferenceSequenceContext as Ctx;
+    let (id, start, span): (i32, i32, i32) = kani::any();
+    let r = Ctx::try_from((id, start, span));
+    match &r {
+        Ok(Ctx::None) => assert_eq!(id, -1),
+        Ok(Ctx::Many) => assert_eq!(id, -2),
+        Ok(Ctx::Some(c)) => {
+            assert!(id >= 0 && start >= 1 && span >= 1);
+            assert!(c.reference_sequence_id() == id as usize && usize::from(c.alignment_start()) == start as usize);
+            assert_eq!(c.alignment_span(), span as usize);
+        }
+        Err(_) => assert!(id < -2 || (id >= 0 && (start < 1 || span < 1))),
+    }
+    std::mem::forget(r);
+}
